@@ -45,7 +45,7 @@ package chain
 //      "ghost_before": k (validate mode only, k = block number, 1-based; 0/absent = none),
 //      "blocks": [ {"ts": 1000, "txs": [TX, ...]}, ... ]}
 //     TX = {"from": <acct idx>, "nonce": <uint>, "kind": "transfer"|"stake"|"unstake"|"votebp"|
-//           "votedao"|"namecreate"|"nameupdate"|"raw"|"deploy"|"call" (deploy/call: "payload" is the
+//           "votedao"|"namecreate"|"nameupdate"|"raw"|"deploy"|"call"|"fdcall" (fee delegation; deploy/call/fdcall: "payload" is the
 //           VM script, see determVM; call: "ctr":[deployer index, deploy nonce]),
 //           "to": <acct idx> | "aergo.system" | "aergo.name" | "<any string, used as raw recipient
 //                 bytes, e.g. a registered 12-char name>"   (transfer / raw),
@@ -533,6 +533,9 @@ func (n *determNode) buildTx(t *determTx, cidHash []byte) (*types.Tx, error) {
 		body.ChainIdHash = common.Hasher([]byte("verif-wrong-chain"))
 	}
 	recipient := func() ([]byte, error) {
+		if len(t.Ctr) == 2 && t.Ctr[0] >= 0 && t.Ctr[0] < len(n.accts) { // a transfer to a contract
+			return contract.CreateContractID(n.accts[t.Ctr[0]].addr, uint64(t.Ctr[1])), nil
+		}
 		if len(t.To) == 0 {
 			return nil, nil
 		}
@@ -570,6 +573,12 @@ func (n *determNode) buildTx(t *determTx, cidHash []byte) (*types.Tx, error) {
 			return nil, fmt.Errorf("bad ctr %v", t.Ctr)
 		}
 		body.Type = types.TxType_CALL
+		body.Recipient = contract.CreateContractID(n.accts[t.Ctr[0]].addr, uint64(t.Ctr[1]))
+	case "fdcall": // fee delegation: the CONTRACT pays the fee; may carry an amount
+		if len(t.Ctr) != 2 || t.Ctr[0] < 0 || t.Ctr[0] >= len(n.accts) {
+			return nil, fmt.Errorf("bad ctr %v", t.Ctr)
+		}
+		body.Type = types.TxType_FEEDELEGATION
 		body.Recipient = contract.CreateContractID(n.accts[t.Ctr[0]].addr, uint64(t.Ctr[1]))
 	case "stake":
 		gov(types.AergoSystem, `{"Name":"v1stake"}`)
@@ -738,13 +747,50 @@ func (n *determNode) produceOn(prev *types.Block, ts int64, cand []*types.Tx, de
 	bs.Receipts().SetHardFork(cs.cfg.Hardfork, bi.No)                                                          // :243
 	exec0 := NewTxExecutor(context.Background(), nil, cs.cdb, bi, contract.BlockFactory)                       // :42
 	leak := ""
+	// every account a candidate names (sender, recipient) + the special accounts: the visible state
+	watch := [][]byte{[]byte(types.AergoSystem), []byte(types.AergoName)}
+	for _, a := range n.accts {
+		watch = append(watch, a.addr)
+	}
+	for _, tx := range cand {
+		if r := tx.GetBody().GetRecipient(); len(r) == types.AddressLength {
+			watch = append(watch, r)
+		}
+	}
+	visible := func(b *state.BlockState) string {
+		var sb strings.Builder
+		for _, a := range watch {
+			st, err := b.GetAccountState(types.ToAccountID(a))
+			if err != nil || st == nil {
+				fmt.Fprintf(&sb, "%x:?;", a[:4])
+				continue
+			}
+			fmt.Fprintf(&sb, "%x:n=%d,b=%s,code=%x,root=%x", a[:4], st.GetNonce(), new(big.Int).SetBytes(st.GetBalance()).String(),
+				st.GetCodeHash(), st.GetStorageRoot())
+			if len(st.GetCodeHash()) > 0 { // a contract: the storage slots the scripted VM writes, read through the cache
+				if ctr, err := statedb.OpenContractState(a, st, b.StateDB); err == nil {
+					for _, k := range []string{"a", "init", "k", "k0", "k1", "k2", "k3"} {
+						v, _ := ctr.GetData([]byte(k))
+						fmt.Fprintf(&sb, ",%s=%q", k, v)
+					}
+				}
+			}
+			sb.WriteString(";")
+		}
+		return sb.String()
+	}
 	exec := func(b *state.BlockState, tx types.Transaction) error {
-		before := determUncovered(b)
+		before, vbefore := determUncovered(b), visible(b)
 		err := exec0(b, tx)
 		leak = ""
 		if err != nil {
 			if after := determUncovered(b); after != before {
 				leak = before + " -> " + after
+			}
+			// the part Snapshot/Rollback DO cover must be back where it was: accounts (nonce, balance,
+			// code hash, storage root) as read through the block state's buffer
+			if vafter := visible(b); vafter != vbefore {
+				leak += " | visible state: " + vbefore + " -> " + vafter
 			}
 		}
 		return err
